@@ -41,6 +41,7 @@ func ruleNoReorder(c *Ctx, r *Report, clause, fnKey, what string) {
 }
 
 func checkC06(c *Ctx, r *Report) {
+	defer func() { ruleRegexInventory(c, r, "C06.b", "core/metadata", "core/annotations") }()
 	w := c.W
 	r.NotDecided = append(r.NotDecided, "the Go-type-string -> OpenAPI schema mapping for every type string (ToOpenApiType is a switch over runtime names)", "what kin-openapi/libopenapi do with the model objects")
 	r.Assume = append(r.Assume, "field-flow is decided flow-insensitively over single functions with one level of helper inlining")
